@@ -25,6 +25,8 @@ pub fn all() -> Vec<StreamDef> {
     vec![
         okey::def(),
         plan::def(),
+        plan::def_lim(),
+        plan::def_where(),
     ]
 }
 
